@@ -417,6 +417,9 @@ func (w *world) ask(a *sActor, c *actCmd) string {
 func (w *world) awaitLaunch(a *sActor) (launchInfo, bool) {
 	select {
 	case li := <-a.launched:
+		if li.bad {
+			w.tainted.Store(true) // a Subscribe in OnLaunch ran into its timeout: not a verdict
+		}
 		return li, true
 	case <-time.After(hardCap):
 		w.tainted.Store(true)
